@@ -406,7 +406,9 @@ def run_check(prop, tier='quick', only=None, jobs=None):
     n_dec = sum(r['decisions'] for r in results)
     level = getattr(mod, 'LEVEL', 'model_checking')
     coverage = dict(
-        states=max(n_paths, 0), transitions=max(n_dec, 0),
+        states=max(n_paths, 0),
+        transitions=max(n_dec + sum(r['obligations'] for r in results), 0),
+        branch_decisions=n_dec,
         traces_validated_against_impl=sum(r['concrete'] for r in results),
         samples=samples,
         evaluations=max(sum(r['obligations'] for r in results), 0),
@@ -415,8 +417,10 @@ def run_check(prop, tier='quick', only=None, jobs=None):
         rule='one evaluation = one SMT obligation (path condition and '
         'negated property) on one explored path of the real code; '
         'non-trivial = not closed by constant folding before reaching the '
-        'solver; states = completed feasible paths, transitions = solver-'
-        'decided branch decisions',
+        'solver; states = completed feasible paths; transitions = solver '
+        'verdicts along those paths (branch decisions decided by a '
+        'feasibility query + obligations decided); branch_decisions gives '
+        'the first summand alone',
         obligations=sum(r['obligations'] for r in results),
         discharged=sum(r['discharged'] for r in results),
         discharged_by=by, solver_queries=tot.queries,
